@@ -4,6 +4,7 @@ import JanetModel.Gen.VmAccess
 import JanetModel.Unmarsh.ImageWf
 import JanetModel.PegVerify.Sound
 import JanetModel.Unmarsh.BytesSound
+import JanetModel.Unmarsh.BytesMono
 namespace JanetModel.Props.C10
 open JanetModel.Bytecode JanetModel.Gen.VmAccess
 
@@ -111,6 +112,14 @@ theorem unmarshal_terminates_of_sites_ok (C : Cfg) (hS : C.sites.ok = true) (hR 
     (hf : fuelBound C ≤ fuel) : ∀ a, unmarshal C b fuel ≠ .fuel ∧ unmarshal C b fuel ≠ .oob a :=
   unmarshal_terminates_generic C hS hR hI b fuel hf
 
+open JanetModel.Unmarsh.Bytes in
+/-- the recursion depth is bounded, stated without the fuel: any amount of fuel ≥ `fuelBound C` (= 2·(guard+2)+2 nested
+    activations of `unmarshal_one` / `unmarshal_one_def` / `unmarshal_one_env`) gives the same answer as `fuelBound C` — on no
+    byte string does the unmarshaller nest deeper -/
+theorem unmarshal_depth_bounded_of_sites_ok (C : Cfg) (hS : C.sites.ok = true) (hR : C.refsChecked = true) (hI : C.inc.ok = true)
+    (b : Array Nat) (fuel : Nat) (hf : fuelBound C ≤ fuel) : unmarshal C b fuel = unmarshal C b (fuelBound C) :=
+  unmarshal_depth_bounded_generic C hS hR hI b fuel hf
+
 namespace BytesExamples
 open JanetModel.Unmarsh.Bytes
 
@@ -139,6 +148,11 @@ example : (match unmarshal { mk goodSites with refChecked := false } #[218, 0] 2
 example : (match unmarshal (mk goodSites) #[209, 3, 1, 129, 0, 201] 20 with | .ok .arr c => c.pos == 6 | _ => false) = true := by decide
 example : (match unmarshal (mk goodSites) #[209, 3, 1, 129] 20 with | .err .eos => true | _ => false) = true := by decide
 example : (match unmarshal (mk goodSites) #[206, 2, 104, 105, 7] 20 with | .ok .str c => c.pos == 4 | _ => false) = true := by decide
+
+/-- non-vacuity of `unmarshal_depth_bounded_of_sites_ok`: the hypotheses hold of a concrete configuration -/
+example : unmarshal (mk goodSites) #[209, 3, 1, 129, 0, 201] 100000 =
+    unmarshal (mk goodSites) #[209, 3, 1, 129, 0, 201] (fuelBound (mk goodSites)) :=
+  unmarshal_depth_bounded_of_sites_ok _ (by decide) (by decide) (by decide) _ _ (by decide)
 
 /-- `readint` without `MARSH_EOS(st, data + 1)` in its two-byte branch -/
 def noInt2 : Sites := { goodSites with int2 := ⟨none, 1⟩ }
